@@ -371,7 +371,8 @@ def install_remove_association(reg: Registry):
 def region_unchanged(o: H, h: H):
     """every array agrees with o on every address allocated in o (objects allocated meanwhile are garbage)"""
     x = A('x!ru')
-    return [('region.' + n, FA([x], z3.Implies(z3.And(x >= 0, x < o.alloc), z3.Select(h.arr[n], x) == z3.Select(o.arr[n], x)), [z3.Select(h.arr[n], x)]))
+    return [('region.' + n, FA([x], z3.Implies(z3.And(x >= 0, x < o.alloc), z3.Select(h.arr[n], x) == z3.Select(o.arr[n], x)),
+                               [z3.Select(h.arr[n], x), z3.Select(o.arr[n], x)]))
             for n in h.arr if not z3.eq(h.arr[n], o.arr[n])]
 
 
